@@ -616,5 +616,72 @@ theorem reach_inv (s : State) (hr : Reach s) : Inv s := by
   | init => exact init_inv
   | step s o _ ih => exact step_inv s o ih
 
+/-- nothing is left to do: no Wait is parked while a result is queued -/
+def Quiet (s : State) : Prop := s.closed = false → s.waiters = [] ∨ s.done = []
+
+theorem pump_quiet : ∀ (fuel : Nat) (s : State), s.done.length < fuel → Quiet (pump fuel s).1 := by
+  intro fuel
+  induction fuel with
+  | zero => intro s h; omega
+  | succ n ih =>
+    intro s hlen
+    unfold pump
+    split
+    · rename_i hc
+      intro hcf; simp [hc] at hcf
+    · split
+      · rename_i w ws c q hw hd
+        apply ih
+        simp only [hd, List.length_cons] at hlen
+        show q.length < n
+        omega
+      · rename_i w ws q hw hd
+        apply ih
+        simp only [hd, List.length_cons] at hlen
+        show q.length < n
+        omega
+      · rename_i h1 h2
+        intro _
+        cases hw : s.waiters with
+        | nil => exact Or.inl rfl
+        | cons w ws =>
+          cases hd : s.done with
+          | nil => exact Or.inr rfl
+          | cons x q =>
+            cases x with
+            | none => exact (h2 w ws q hw hd).elim
+            | some c => exact (h1 w ws c q hw hd).elim
+
+theorem step_quiet (s : State) (o : Op) (h : Quiet s) : Quiet (step s o).1 := by
+  cases o with
+  | start c =>
+    simp only [step]
+    split
+    · exact h
+    · split
+      · rename_i hcl; intro hcf; simp [hcl] at hcf
+      · exact h
+  | finish c ok =>
+    simp only [step]
+    split
+    · exact h
+    · split
+      · exact pump_quiet _ _ (by simp)
+      · split
+        · rename_i hcl; intro hcf; simp [hcl] at hcf
+        · exact pump_quiet _ _ (by simp)
+  | wait call =>
+    simp only [step]
+    split
+    · exact h
+    · exact pump_quiet _ _ (by simp)
+  | close => simp only [step]; intro hcf; simp at hcf
+
+/-- in every reachable state of an open handshaker no Wait is parked while a finished handshake is queued -/
+theorem reach_quiet (s : State) (hr : Reach s) : Quiet s := by
+  induction hr with
+  | init => intro _; exact Or.inl rfl
+  | step s o _ ih => exact step_quiet s o ih
+
 end Handshaker
 end Model
